@@ -186,7 +186,9 @@ static bool gen_c17_inject(Rng &r, Plan &p) {
   if (mode == 4) { args.push("-f" + fsender); }
   p.knobs.set("args", args);
   Json ex = Json::obj(); Json wr = Json::arr(); for (auto &w : want) wr.push(w); ex.set("rcpts", wr); if (mode == 4) ex.set("sender", fsender); p.knobs.set("expect", ex);
-  if (mode >= 4 && !has_bcc && r.chance(0.7)) p.knobs.set("reinject", true);  // Bcc is deleted from the stored header, so its addresses cannot come back
+  // allocation failures while the header is parsed and rewritten (the token arrays are the large allocations)
+  if (r.chance(0.2)) { Fault f; f.actor = "qmail-inject"; f.call = C_MALLOC; f.nth = (int)r.range(1, 120); f.kind = "null"; p.faults.push_back(f); }
+  if (mode >= 4 && !has_bcc && p.faults.empty() && r.chance(0.7)) p.knobs.set("reinject", true);  // Bcc is deleted from the stored header, so its addresses cannot come back
   (void)have_to; (void)dummy;
   p.label = "qmail-inject header with " + std::to_string(expect.size()) + " mailboxes, mode " + std::to_string(mode);
   return true;
